@@ -32,6 +32,7 @@ def play(drv, tid: int, stream: str, tmpl: str, query: str, t0: datetime.datetim
     nxt: dict[str, int] = {}                  # rep -> absolute start the player wants next
     lastf: dict[str, dict[str, Any]] = {}
     base: dict[str, int] = {}
+    ast0: dict[str, datetime.datetime] = {}   # rep -> availabilityStartTime of the first manifest: the session's time axis
     skipped: dict[str, int] = {}
     for step in range(steps):
         if step:
@@ -52,8 +53,18 @@ def play(drv, tid: int, stream: str, tmpl: str, query: str, t0: datetime.datetim
                 if not tl or tm is None or '$Time$' not in (tm.get('media') or ''):
                     continue
                 rid = rep['id']
-                B = base.setdefault(rid, tl[0]['t'])
-                keys = [x['t'] - B for x in tl]
+                ts = int(tm['timescale'] or 1)
+                # S@t counts from availabilityStartTime: when a symbolic start (today, ...) resolves to another day later in the
+                # session, the entries are expressed on the time axis of the session's first manifest
+                a0 = ast0.setdefault(rid, proj['availabilityStartTime'])
+                shift = 0
+                if a0 is not None and proj['availabilityStartTime'] is not None and proj['availabilityStartTime'] != a0:
+                    sh = (proj['availabilityStartTime'] - a0).total_seconds() * ts
+                    if sh != int(sh):
+                        continue
+                    shift = int(sh)
+                B = base.setdefault(rid, tl[0]['t'] + shift)
+                keys = [x['t'] + shift - B for x in tl]
                 durs = [x['d'] for x in tl]
                 prev = held.get(rid)
                 ln = {'tid': tid, 'ev': 'manifest', 'rep': rid, 'now': now.isoformat(), 'url': url, 'pub': _inst(proj['publishTime']),
@@ -64,7 +75,7 @@ def play(drv, tid: int, stream: str, tmpl: str, query: str, t0: datetime.datetim
                     continue
                 lines.append(ln)
                 held[rid] = {'at': now, 'keys': keys, 'durs': durs, 'tm': tm, 'repbase': rep['base'], 'bw': rep['bandwidth'],
-                             'pub': ln['pub'], 'ast': proj['availabilityStartTime'], 'ts': int(tm['timescale'] or 1)}
+                             'pub': ln['pub'], 'ast': proj['availabilityStartTime'], 'ts': ts, 'shift': shift}
                 if rid not in nxt:
                     nxt[rid] = keys[max(0, len(keys) - 2)]        # join near the live edge
         # fetch
@@ -78,18 +89,18 @@ def play(drv, tid: int, stream: str, tmpl: str, query: str, t0: datetime.datetim
             while n < max_fetch and nxt[rid] in h['keys'] and rng.random() < 0.85:
                 i = h['keys'].index(nxt[rid])
                 key, adv = h['keys'][i], h['durs'][i]
-                u = urljoin(h['repbase'], M.fill_template(h['tm']['media'], rid, h['bw'], time=key + base[rid]))
+                u = urljoin(h['repbase'], M.fill_template(h['tm']['media'], rid, h['bw'], time=key + base[rid] - h['shift']))
                 rr = drv.get(u)
                 sf = drv.stored_for(stream, rid)
                 tfdt, dur = 0, 0
                 if rr.status_code == 200 and sf is not None:
                     pm = project_media(rr.data, sf)
-                    tfdt, dur = pm['tfdt'] - base[rid], pm['dur']
+                    tfdt, dur = pm['tfdt'] + h['shift'] - base[rid], pm['dur']
                     if abs(tfdt) >= 2**31:
                         tfdt = 2**31 - 1
                 p = lastf.get(rid)
                 # C01 only speaks about entries whose end is not later than the instant of the request
-                end_us = ((key + base[rid] + adv) * 10**6) // h['ts']
+                end_us = ((key + base[rid] - h['shift'] + adv) * 10**6) // h['ts']
                 ended = 1 if h['ast'] is not None and h['ast'] + datetime.timedelta(microseconds=end_us) <= now else 0
                 lines.append({'tid': tid, 'ev': 'fetch', 'rep': rid, 'now': now.isoformat(), 'url': path_of(u), 'key': key, 'ended': ended,
                               'status': rr.status_code, 'tfdt': tfdt, 'dur': dur, 'adv_dur': adv,
